@@ -92,7 +92,8 @@ def gen_records(rng, counts=(0, 1, 2, 3, 5, 8, 13), sgr_data=False):
             recs.append((twin(rng, r[0]), twin(rng, r[1]), r[2], twin(rng, r[3])))
             continue
         recs.append((gen_val(rng, sgr_data), rng.choice(b_pool) if same_b else gen_val(rng, sgr_data),
-                     rng.choice([1, 2, 30, 400, 4, 55555, None, "x"]), gen_val(rng, sgr_data)))
+                     # (the enum field also meets strings that READ like its values: "1", "None")
+                     rng.choice([1, 2, 30, 400, 4, 55555, None, "x", 1, 2, None, "1", "2", "None"]), gen_val(rng, sgr_data)))
     return recs
 
 
